@@ -51,19 +51,19 @@ def run(ctx):
     # ---------------------------------------------------------------- finish_with
     f = ctx.fn(A + "finish_with")
     if f:
-        oks = ctx.find_aggregates(f, r"^core::result::Result$", "Ok")
-        errs = ctx.find_aggregates(f, r"^core::result::Result$", "Err")
-        ctx.ob("C05.finish_with.shape", f.key, "one Ok and one Err construction", len(oks) == 1 and len(errs) == 1, "%d Ok, %d Err" % (len(oks), len(errs)))
-        for blk, i, st in oks:
-            ctx.requires("C05.finish_with.ok-iff-empty", f, blk, "Ok(success)", [r"^len\(.*into_inner\(self\)\)=0$"])
-            e = ctx.expr(f, st["r"])
-            ctx.ob("C05.finish_with.ok-value", f.key, "Ok(success)", e.endswith("{a2}"), "Ok carries %s (must be the `success` argument)" % e)
-        for blk, i, st in errs:
-            ctx.requires("C05.finish_with.err-iff-nonempty", f, blk, "Err(multiple)", [("ne", r"^len\(.*into_inner\(self\)\)$", 0)])
-            e = ctx.expr(f, st["r"])
-            ctx.ob("C05.finish_with.err-value", f.key, "Err(multiple)",
-                   bool(re.search(r"Err\{darling_core::error::Error::multiple\(darling_core::error::Accumulator::into_inner\(self\)\)\}", e)),
-                   "Err carries %s (must be Error::multiple of the recorded vector)" % e)
+        # the case table: Ok(success) exactly when nothing was recorded, otherwise Err(multiple(recorded))
+        cs = resalg.cases(ctx, f)
+        INNER = "darling_core::error::Accumulator::into_inner(self)"
+        oks = [(c, v) for c, v in cs if v.startswith("core::result::Result::Ok{")]
+        errs = [(c, v) for c, v in cs if v.startswith("core::result::Result::Err{")]
+        ctx.ob("C05.finish_with.shape", f.key, "one Ok and one Err case", len(oks) == 1 and len(errs) == 1 and len(cs) == 2, "cases %s" % cs)
+        for c, v in oks:
+            ctx.ob("C05.finish_with.ok-iff-empty", f.key, "Ok(success)", c == ["len(%s)=0" % INNER], "Ok under %s" % c)
+            ctx.ob("C05.finish_with.ok-value", f.key, "Ok(success)", v == "core::result::Result::Ok{a2}", "Ok carries %s (must be the `success` argument)" % v)
+        for c, v in errs:
+            ctx.ob("C05.finish_with.err-iff-nonempty", f.key, "Err(multiple)", c == ["len(%s)=('not-in', (0,))" % INNER], "Err under %s" % c)
+            ctx.ob("C05.finish_with.err-value", f.key, "Err(multiple)", v == "core::result::Result::Err{darling_core::error::Error::multiple(%s)}" % INNER,
+                   "Err carries %s (must be Error::multiple of the recorded vector)" % v)
     f = ctx.fn(A + "finish")
     if f:
         rets = ctx.ret_exprs(f)
@@ -121,7 +121,13 @@ def run(ctx):
     f = ctx.fn(A + "into_inner")
     if f:
         rets = ctx.ret_values(f)
-        ctx.ob("C05.into_inner.take", f.key, "return", rets == ["(self.0 as Some).0"] and len(ctx.find_calls(f, r"^core::option::Option::<T>::take$|^core::mem::take$")) == 1, "returns %s" % rets)
+        okv = rets == ["(self.0 as Some).0"]
+        m_ = re.match(r"^core::option::Option::<T>::unwrap_or_else\(self\.0, closure ([^\[]+)\[", rets[0]) if len(rets) == 1 else None
+        if m_:
+            # `.unwrap_or_else(|| diverging())`: the payload, or no return at all
+            cl = [c for c in ctx.closures_of(f) if c.key == m_.group(1)]
+            okv = len(cl) == 1 and (cl[0].local_ty(0) == "!" or not [b2 for b2 in cl[0].normal_blocks() if cl[0].term(b2)["k"] == "return"])
+        ctx.ob("C05.into_inner.take", f.key, "return", okv and len(ctx.find_calls(f, r"^core::option::Option::<T>::take$|^core::mem::take$")) == 1, "returns %s" % rets)
     dflt = ctx.fn("<%s as core::default::Default>::default" % ACC)
     if dflt:
         rets = ctx.ret_values(dflt)
